@@ -1,2 +1,3 @@
 import PncModel.Wire
 import PncModel.Arl
+import PncModel.Interp
